@@ -349,3 +349,34 @@ c.trace("kdf-built-from-the-requests-parameters", t_kdf)
 c.scope('trace.kdf', 'C06')
 c.max_paths = 40000
 c.split_by = [('oneof:derivation_data', 2), ('oneof:key_material', 2), ('oneof:salt', 2), ('oneof:iv_nonce', 2)]
+
+
+def t_verify(ev, outcome, exc, path, I):
+    """SignatureVerify: the public key is loaded from the given key bytes, verify() is given exactly
+    the signature and the message, and the answer is True only if verify() returned normally."""
+    if outcome != 'return':
+        return True
+    ext = _ext(ev)
+    loads = [e for e in ext if e[1].endswith('load_der_public_key') or e[1].endswith('load_pem_public_key')]
+    ver = [e for e in ext if e[1].endswith('.verify()')]
+    if len(ver) != 1 or not loads:
+        return "the answer is not based on one verify() call on a loaded public key"
+    owner = getattr(ver[0][2][0], 'fields', {}).get('__owner__')
+    if not any(owner is e[4] for e in loads) or not all(e[2] and e[2][0] is I.ghost_globals['__key__'] for e in loads):
+        return "the verification key is not loaded from the given key bytes"
+    if ver[0][2][1] is not I.ghost_globals['__sig__'] or ver[0][2][2] is not I.ghost_globals['__msg__']:
+        return "verify() is not given exactly the signature and the message of the request"
+    res = I.ghost_globals.get('__result__')
+    raised = any(e[0] == 'raise' for e in ev[ev.index(ver[0]):])
+    if res is True and raised:
+        return "valid is reported although verify() raised"
+    if res is not True and res is not False:
+        return "the answer is not a boolean constant"
+    return True
+
+
+c = contract(CE + "verify_signature")
+c.props('C06')
+c.let('__key__', 'signing_key').let('__sig__', 'signature').let('__msg__', 'message')
+c.trace("verify-of-the-requests-signature-and-message-under-the-given-key", t_verify)
+c.scope('trace.verify', 'C06')
